@@ -39,7 +39,11 @@ type Outcome struct {
 
 // RunRef runs the program on a fresh reference machine.
 func RunRef(p *gen.Program, o Opts, skipErased bool) (ref.Result, *ref.Machine, error) {
-	m := ref.NewMachine(o.RefSteps, o.RefWork)
+	steps, work := o.RefSteps, o.RefWork
+	if p.Deep { // a recursion of up to 9000 levels (3 inferences each) on top of the usual budget
+		steps, work = steps+40000, work+1_000_000
+	}
+	m := ref.NewMachine(steps, work)
 	m.SkipErased = skipErased
 	for _, d := range p.Dynamic {
 		var name string
